@@ -25,7 +25,7 @@ if VERIF not in sys.path:
 
 import z3  # noqa: E402
 
-from . import frontend, smt, verify, replay  # noqa: E402
+from . import frontend, smt, verify, replay, re_model  # noqa: E402
 from .api import Registry, Module, Contract  # noqa: E402
 
 
